@@ -6,6 +6,7 @@ package parser
 import (
 	"errors"
 	"fmt"
+	"math"
 	"strconv"
 
 	"github.com/theory/sqljson/path/ast"
@@ -37,6 +38,18 @@ func newInteger(lex pathLexer, text string) *ast.IntegerNode {
 		return ast.NewInteger("0")
 	}
 	return ast.NewInteger(text)
+}
+
+// anyLevel returns the level of the .** accessor for the result of parsing
+// the text of its INT_P token with [strconv.ParseInt] in base 0: like any
+// integer literal a level may be written in decimal, hexadecimal, octal or
+// binary and with underscores. A value beyond the range of int maxes out, as
+// larger numbers do in [ast.NewAny].
+func anyLevel(level int64, err error) int {
+	if err != nil || level > math.MaxInt {
+		return math.MaxInt
+	}
+	return int(level)
 }
 
 // newNumeric returns the ast.NumericNode for text, the text of a NUMERIC_P
